@@ -568,7 +568,9 @@ def run_cond(res, specs, opts):
                 scale = max([1.0] + [abs(float(v)) for v in asg.values()] + [abs(float(ref))])
                 errv = abs(got - float(ref)) / scale
                 if worst is None or errv > worst[0]: worst = (errv, {e.nodes[k2].name: float(v) for k2, v in asg.items()}, got, float(ref))
-            if worst is None or worst[0] <= float(cond.TOL):
+            from fractions import Fraction as _F
+            ctol = float(_F(opts.get('cond_tol', cond.TOL)))
+            if worst is None or worst[0] <= ctol:
                 stats['model_only'] += 1
                 res.undecided.append('%s: amplification bound refuted in the rounding model, not reproduced on the double build (worst relative error %.2g)' % (full, worst[0] if worst else -1)); continue
             stats['reproduced'] += 1
@@ -576,7 +578,7 @@ def run_cond(res, specs, opts):
             if kf: res.known.append((full, kf.get('what', ''))); continue
             d = os.path.join(VERIF, 'replay', res.pid); os.makedirs(d, exist_ok=True)
             rfn = os.path.join(d, full.replace(':', '__').replace('(', '_').replace(')', '').replace(',', '_').replace('@', '_at_').replace(']', '') + '.json')
-            json.dump({'property': res.pid, 'key': full, 'entry': ename, 'claim': key, 'mode': 'COND', 'inputs': worst[1], 'double_build_value': worst[2], 'reference_60_digits': worst[3], 'relative_error': worst[0], 'tolerance': float(cond.TOL),
+            json.dump({'property': res.pid, 'key': full, 'entry': ename, 'claim': key, 'mode': 'COND', 'inputs': worst[1], 'double_build_value': worst[2], 'reference_60_digits': worst[3], 'relative_error': worst[0], 'tolerance': ctol,
                        'replay': {'binary': dbin, 'reproduced': True}}, open(rfn, 'w'), indent=1)
             res.violations.append((full, rfn))
     res.extra.setdefault('cond', {})
